@@ -7,7 +7,8 @@
     PostgreSQL planners).  *)
 From Coq Require Import List NArith ZArith Bool.
 From Atlas Require Import Base.Bytes Qual.Builder Qual.BuilderProofs Qual.Scope Qual.ScopeProofs
-  Qual.RefSkeleton Qual.RefSkeletonProofs Qual.Lexq Qual.LexqProofs Qual.Replay Qual.ReplayProofs Qual.ChainEnd.
+  Qual.RefSkeleton Qual.RefSkeletonProofs Qual.Lexq Qual.LexqProofs Qual.Replay Qual.ReplayProofs Qual.ChainEnd
+  Qual.RefSkeletonSeq Qual.StmtLex Qual.StmtLexProofs.
 Import ListNotations.
 Open Scope N_scope.
 
@@ -303,6 +304,79 @@ Theorem C16_replay_before_fix :
    (dev <> user /\ existsb is_drop cs = true /\ existsb is_addmod cs = true)).
 Proof. exact before_fix_rejects_iff. Qed.
 
+
+(** * 5 (round 5). Schema elements AS INSPECTED: sequence statements in both directions, the reverse
+      of DROP TABLE, and the statement-level grammar the oracle reads the statements with.
+
+    (a) serial -> integer of a column whose serial type carries the inspected SequenceName [sn]
+    ([Some sn]; [sn = []]: none, the name is <table>_<column>_seq), on ANY table, next to ANY other
+    sub-changes, under ANY qualifier [q]: the plan holds  DROP SEQUENCE IF EXISTS <p><seq>  and its
+    reverse  CREATE SEQUENCE IF NOT EXISTS <p><seq> OWNED BY <p><t>.<c>  where <p> is the qualifier
+    prefix ([qual_prefix]: nothing under "", exactly q under q, the table's own schema when unset)
+    and no chain is written inside a literal. *)
+Theorem C16_skeleton_sequence_dropped :
+  forall t subs c fe te sn oth cm q,
+  In (ModifyColumn c fe te (Some sn) None true oth cm) subs ->
+  let o := t_obj t in
+  let seq := SerialType_sequence sn (o_name o) c in
+  let p := qual_prefix q (o_schema o) in
+  In (false, h_drop_sequence, [p ++ [seq]], []) (plan_obs true q [RefSkeleton.ModifyTable t subs]) /\
+  In (true, h_create_sequence, [p ++ [seq]; p ++ [o_name o; c]], []) (plan_obs true q [RefSkeleton.ModifyTable t subs]).
+Proof. exact sequence_dropped. Qed.
+
+(** (b) integer -> serial: CREATE SEQUENCE ... OWNED BY, reverse DROP SEQUENCE, and the ALTER TABLE
+    statement holds the sequence reference inside the literal of  SET DEFAULT nextval('<p><seq>'). *)
+Theorem C16_skeleton_sequence_added :
+  forall t subs c fe te sn oth cm q,
+  In (ModifyColumn c fe te None (Some sn) true oth cm) subs ->
+  let o := t_obj t in
+  let seq := SerialType_sequence sn (o_name o) c in
+  let p := qual_prefix q (o_schema o) in
+  In (false, h_create_sequence, [p ++ [seq]; p ++ [o_name o; c]], []) (plan_obs true q [RefSkeleton.ModifyTable t subs]) /\
+  In (true, h_drop_sequence, [p ++ [seq]], []) (plan_obs true q [RefSkeleton.ModifyTable t subs]) /\
+  exists chains lits, In (false, h_alter_table, chains, lits) (plan_obs true q [RefSkeleton.ModifyTable t subs]) /\
+                      In (p ++ [seq]) lits.
+Proof. exact sequence_added. Qed.
+
+(** the prefix, and the name (an inspected SequenceName is used as it is) *)
+Theorem C16_skeleton_sequence_prefix :
+  forall q ns sn t c,
+  (qual_prefix (Some []) ns = [] /\ (q <> [] -> qual_prefix (Some q) ns = [q]) /\ qual_prefix None ns = opt_name ns) /\
+  ((sn <> [] -> SerialType_sequence sn t c = sn) /\ SerialType_sequence [] t c = seq_name t c).
+Proof. intros q ns sn t c. split; [exact (qual_prefix_cases q ns)|exact (sequence_name sn t c)]. Qed.
+
+(** (c) DROP TABLE, both planners, every table: the reverse statements are the Cmd statements of
+    ADD TABLE of the same table turned into reverse statements -- forward and reverse are qualified
+    alike (the same references through the same qualifying calls), whatever the table carries. *)
+Theorem C16_skeleton_drop_table_reverse :
+  forall pg t,
+  filter s_rev (plan_skel pg [RefSkeleton.DropTable t]) =
+  map rev_of (filter is_cmd (plan_skel pg [RefSkeleton.AddTable t])).
+Proof. exact drop_table_reverse. Qed.
+
+(** (d) the statement-level scanner (Qual/StmtLex.v = the oracle's lexChains, tied on every
+    generated statement by stage [stmtlex]): quoting a chain of names the way Builder.Ident does
+    (quote characters doubled) and scanning it give back exactly the names -- for EVERY name
+    (quote characters, dots, backslashes, anything), both dialects, alone ... *)
+Theorem C16_stmt_lex_round_trip :
+  forall pg l, l <> [] ->
+  lex_stmt pg (render_chain (ident_quote pg) (ident_quote pg) l) = ([l], [], false).
+Proof. exact lex_stmt_chain. Qed.
+
+(** ... and anywhere in a statement: after every text [pre] that leaves the scanner outside
+    identifiers and literals and not right after a word byte, and before every continuation that
+    neither doubles the closing quote nor continues the chain, the chains read are those of [pre],
+    then EXACTLY [l], then those of the rest. *)
+Theorem C16_stmt_lex_round_trip_anywhere :
+  forall pg pre l post o1,
+  l <> [] ->
+  lfeed pg (LNormal false, out0) pre = (LNormal false, o1) ->
+  stops pg post ->
+  exists after,
+    fst (fst (lex_stmt pg (pre ++ render_chain (ident_quote pg) (ident_quote pg) l ++ post))) =
+    rev (o_chains o1) ++ l :: after.
+Proof. exact lex_stmt_chain_anywhere. Qed.
+
 Print Assumptions C16_builder.
 Print Assumptions C16_builder_chain.
 Print Assumptions C16_builder_schema_kept.
@@ -324,6 +398,12 @@ Print Assumptions C16_replay_dev_name_irrelevant.
 Print Assumptions C16_replay_before_fix.
 Print Assumptions C16_skeleton_partial.
 Print Assumptions C16_skeleton_no_bare_reference.
+Print Assumptions C16_skeleton_sequence_dropped.
+Print Assumptions C16_skeleton_sequence_added.
+Print Assumptions C16_skeleton_sequence_prefix.
+Print Assumptions C16_skeleton_drop_table_reverse.
+Print Assumptions C16_stmt_lex_round_trip.
+Print Assumptions C16_stmt_lex_round_trip_anywhere.
 Print Assumptions C16_scope_sound.
 Print Assumptions C16_scope_refuted.
 Print Assumptions C16_scope_code.
@@ -487,3 +567,43 @@ Proof.
   - repeat constructor; discriminate.
   - unfold sepA, SP, CM, NLc, RP, SQ, LP. intros [H|[H|[H|[H|[H|H]]]]]; discriminate.
 Qed.
+
+(* round 5 *)
+(* C16_skeleton_sequence_dropped / _prefix: posts.id, inspected sequence posts_id_seq, serial -> integer,
+   custom qualifier: DROP SEQUENCE q.posts_id_seq / reverse CREATE SEQUENCE q.posts_id_seq OWNED BY q.t.c;
+   the reverse ALTER TABLE holds the literal *)
+Definition posts_id_seq : bytes := [112;111;115;116;115;95;105;100;95;115;101;113].
+Example ex_sequence_dropped :
+  let t := mkTab (mkObj (Some m_) t_) [] [] [] false in
+  plan_obs true (Some q_) [RefSkeleton.ModifyTable t [ModifyColumn c_ None None (Some posts_id_seq) None true false false]] =
+    [ (false, h_alter_table, [[q_; t_]], []); (true, h_alter_table, [[q_; t_]], [[q_; posts_id_seq]]);
+      (false, h_drop_sequence, [[q_; posts_id_seq]], []);
+      (true, h_create_sequence, [[q_; posts_id_seq]; [q_; t_; c_]], []) ].
+Proof. vm_compute. reflexivity. Qed.
+
+(* C16_skeleton_sequence_added: integer -> serial without an inspected name, qualifier unset: own schema *)
+Example ex_sequence_added :
+  let t := mkTab (mkObj (Some m_) t_) [] [] [] false in
+  plan_obs true None [RefSkeleton.ModifyTable t [ModifyColumn c_ None None None (Some []) true false false]] =
+    [ (false, h_create_sequence, [[m_; seq_name t_ c_]; [m_; t_; c_]], []); (true, h_drop_sequence, [[m_; seq_name t_ c_]], []);
+      (false, h_alter_table, [[m_; t_]], [[m_; seq_name t_ c_]]); (true, h_alter_table, [[m_; t_]], []) ].
+Proof. vm_compute. reflexivity. Qed.
+
+(* C16_skeleton_drop_table_reverse: a MySQL table with a foreign key, a PG table with an index and comments *)
+Example ex_drop_table_reverse :
+  let t := mkTab (mkObj (Some m_) t_) [mkCol c_ None true] [mkIdx ii [c_] false true] [mkFk [c_] (mkObj (Some m_) [117])] true in
+  map (stmt_chains (Some q_)) (filter s_rev (plan_skel false [RefSkeleton.DropTable t])) =
+    [ (true, h_create_table, [[q_; t_]; [q_; [117]]]) ] /\
+  length (filter s_rev (plan_skel true [RefSkeleton.DropTable t])) = 5%nat.
+Proof. split; vm_compute; reflexivity. Qed.
+
+(* C16_stmt_lex_round_trip(_anywhere): the names  a<dq>b  and  c.d  (PG, <dq> = the double quote): the text
+   A <dq>a<dq><dq>b<dq>.<dq>c.d<dq> <sq>x<sq> *)
+Example ex_stmt_lex :
+  let l := [[97; 34; 98]; [99; 46; 100]] in
+  render_chain 34 34 l = [34; 97; 34; 34; 98; 34; 46; 34; 99; 46; 100; 34] /\
+  lex_stmt true ([65; 32] ++ render_chain 34 34 l ++ [32; 39; 120; 39]) = ([l], [[120]], false) /\
+  lfeed true (LNormal false, out0) [65; 32] = (LNormal false, out0) /\ stops true [32; 39; 120; 39] /\
+  lex_stmt true [65; 34; 97; 34] = ([[[97]]], [], true) /\          (* glued to the word before it *)
+  lex_stmt false [96; 97] = ([[[97]]], [], true).                    (* unterminated *)
+Proof. repeat split; try (vm_compute; reflexivity); discriminate. Qed.
